@@ -329,6 +329,23 @@ class PeriodicGrid(Grid):
         super().__init__(points, weights)
 
     @property
+    def points(self):
+        """np.ndarray(N,) or np.ndarray(N, M): Positions of the grid points."""
+        return self._points
+
+    @points.setter
+    def points(self, value):
+        """Set the points of the grid and update the fractional intervals they span."""
+        Grid.points.fset(self, value)
+        if self._realvecs.size > 0:
+            if self._points.ndim == 1:
+                frac_points = self._points * self._recivecs
+                self._frac_intvls = np.array([[frac_points.min(), frac_points.max()]])
+            else:
+                frac_points = self._points @ self._recivecs.T
+                self._frac_intvls = np.array([frac_points.min(axis=0), frac_points.max(axis=0)]).T
+
+    @property
     def realvecs(self):
         """np.ndarray(N,) or np.ndarray(N, M): Real-space lattice vectors."""
         return self._realvecs
